@@ -46,14 +46,21 @@ Theorem C20_named_partial : forall G o fx root (rk : id -> nat) R,
   (forall x, rk x <= R) ->
   (forall x y, In y (kids G x) -> stopper G o y = false -> rk y < rk x) ->
   let B := (length G + 1) * (R + 2) in
-  (forall fuel, B <= fuel -> exists out st, to_railroad G o fx root fuel = (Ok out, st)) /\
-  (exists out st, to_railroad G o fx root B = (Ok out, st) /\ frames (c_maxdepth st) <= 2 * (1 + B)).
+  exists out st,
+    (forall fuel, B <= fuel -> to_railroad G o fx root fuel = (Ok out, st)) /\   (* same result for every sufficient fuel *)
+    frames (c_maxdepth st) <= 2 * (1 + B).
 Proof.
-  intros G o fx root rk R HR Hrk B. split.
-  - intros fuel Hf. eapply named_terminates; eauto.
-  - destruct (named_terminates G o fx root rk R HR Hrk B (le_n _)) as (out & st & E).
-    exists out, st. split; auto. apply depth_le_fuel in E. unfold frames. lia.
+  intros G o fx root rk R HR Hrk B.
+  destruct (named_terminates G o fx root rk R HR Hrk B (le_n _)) as (out & st & E).
+  exists out, st. split.
+  - intros fuel Hf. eapply to_railroad_fuel_irrelevant; eauto.
+  - apply depth_le_fuel in E. unfold frames. lia.
 Qed.
+
+(* fuel is only a proof device: a successful conversion is the same for every larger fuel *)
+Theorem C20_fuel_irrelevant : forall G o fx root fuel fuel' out st,
+  to_railroad G o fx root fuel = (Ok out, st) -> fuel <= fuel' -> to_railroad G o fx root fuel' = (Ok out, st).
+Proof. exact to_railroad_fuel_irrelevant. Qed.
 
 (* non-vacuity: the JSON-like grammar (value = string | array | object | number, with named Forward `value`, named
    `string`, `array`, `object`) meets the hypothesis, and converts to 8 diagrams *)
